@@ -102,14 +102,15 @@ def one_history(ctx, i, tmproot):
         rich = i % 2 == 1
         via_symlink = rng.random() < 0.35  # every file is named through a symlinked directory
         hand_written = rng.random() < 0.5
-        p = make_project(rng, root, truth, pre, method=method, rich=rich, via_symlink=via_symlink, hand_written=hand_written)
+        crlf = rng.random() < 0.4
+        p = make_project(rng, root, truth, pre, method=method, rich=rich, via_symlink=via_symlink, hand_written=hand_written, crlf_files=crlf)
         switch = i % 4 == 3  # switch the truth kind mid-history
         length = 2 + i % 3
         via = "cli" if i % 9 == 4 else "api"
         truths = [truth] * length
         if switch:
             truths = [truth, truth] + [others[0]] * 2
-        base = {"op": OP, "truth0": truth, "switch": switch, "method": method, "rich": rich, "via": via, "via_symlink": via_symlink, "hand_written": hand_written,
+        base = {"op": OP, "truth0": truth, "switch": switch, "method": method, "rich": rich, "via": via, "via_symlink": via_symlink, "hand_written": hand_written, "crlf_files": sorted(p.features.get("crlf_files", [])),
                 "pre_states": sorted(set(pre.values())), "length": len(truths),
                 "truth_func_before": p.features.get(truth + "_func_before", False)}
         replay = {"case": i, "seed": ctx.seed, "tier": ctx.tier, "pre": pre, "truths": truths,
@@ -120,14 +121,28 @@ def one_history(ctx, i, tmproot):
         ctx.feature("switch" if switch else "same_truth")
         ctx.feature("named_via_symlink" if via_symlink else "named_directly")
         ctx.feature("hand_written" if hand_written else "emitter_formatted")
+        if p.features.get("crlf_files"):
+            ctx.feature("some_files_with_crlf_line_endings")
         counts_prev = None
         prev_truth = None
         streak = {}
         for run_no, t in enumerate(truths, 1):
             p.truth = t
+            converted = False
+            if crlf and run_no == 3:
+                # the working copy is checked out again with CRLF line endings (autocrlf): an external edit
+                for f in p.files.values():
+                    if os.path.isfile(f):
+                        with open(f, "rb") as fh:
+                            b = fh.read()
+                        with open(f, "wb") as fh:
+                            fh.write(b.replace(b"\r\n", b"\n").replace(b"\n", b"\r\n"))
+                converted = True
+                ctx.event("line_endings_converted_between_runs")
             res = run_api(p) if via == "api" else run_cli(p)
             ctx.event("sync_runs:" + via)
-            check_run(ctx, p, res, dict(base, truth=t), replay, run_no, truth_changed_before=(prev_truth is not None and prev_truth != t), via=via, streak=streak)
+            check_run(ctx, p, res, dict(base, truth=t, line_endings_converted_before_run=converted), replay, run_no,
+                      truth_changed_before=(prev_truth is not None and prev_truth != t) or converted, via=via, streak=streak)
             # (4) growth
             counts = {k: count_definitions(p.files[k], DEF_NAME[k]) for k in p.files}
             if counts_prev is not None and prev_truth == t:
